@@ -1012,3 +1012,103 @@ package leader
 //@   on makechan assert C14.updates_stable: inonce()
 //@   on spawn Updates$1 assert C14.updates_stable: inonce()
 //@   on spawn Updates$1$1 assert C14.updates_stable: inonce()
+
+// ===========================================================================
+// internal/natsmock: the reference store model satisfies the store contract (C14)
+//
+// The iface KeyValue block above is ASSUMED by every other check. Here the
+// in-memory store used by the suite (and by every replay) is PROVED to
+// implement it in its plain mode (no injected fault, no override function):
+// create-if-absent, revision-checked update, strictly increasing revisions,
+// get = latest live value. Post-states are taken at the linearisation point
+// (the release of the store's mutex).
+// ===========================================================================
+
+//@ field MockKeyValue.data        guarded_by(mu)
+//@ field MockKeyValue.rev         guarded_by(mu)
+//@ field MockKeyValue.mu          sync
+//@ field MockKeyValue.CreateFunc  guarded_by(mu)
+//@ field MockKeyValue.UpdateFunc  guarded_by(mu)
+//@ field MockKeyValue.GetFunc     guarded_by(mu)
+//@ field MockKeyValue.DeleteFunc  guarded_by(mu)
+//@ field MockKeyValue.WatchFunc   guarded_by(mu)
+
+//@ func (m *MockKeyValue) Create(key, value, opts)
+//@   tags C14
+//@   ghost plain Bool = false
+//@   ghost hadKey Bool = false
+//@   ghost oldCtr Int = 0
+//@   ghost postHas Bool = false
+//@   ghost postRev Int = 0
+//@   ghost postVal Int = 0
+//@   ghost postCtr Int = 0
+//@   ghost wrote Bool = false
+//@   on lock MockKeyValue.mu when held(m.mu) == 1 set plain = m.CreateFunc == nil
+//@   on lock MockKeyValue.mu when held(m.mu) == 2 set hadKey = has(m.data, key)
+//@   on lock MockKeyValue.mu when held(m.mu) == 2 set oldCtr = m.rev
+//@   on unlock MockKeyValue.mu when held(m.mu) == 2 set postHas = has(m.data, key)
+//@   on unlock MockKeyValue.mu when held(m.mu) == 2 set postRev = m.data[key].Rev
+//@   on unlock MockKeyValue.mu when held(m.mu) == 2 set postVal = m.data[key].Value
+//@   on unlock MockKeyValue.mu when held(m.mu) == 2 set postCtr = m.rev
+//@   on unlock MockKeyValue.mu when held(m.mu) == 2 set wrote = true
+//@   ensures C14.model_create_iff_absent: plain && wrote ==> ((result1 == nil) == !hadKey)
+//@   ensures C14.model_create_effect: plain && wrote && result1 == nil ==> postHas && postVal == value && postRev == result0 && result0 == oldCtr + 1 && postCtr == result0
+//@   ensures C14.model_create_failure_no_effect: plain && wrote && result1 != nil ==> postCtr == oldCtr && result0 == 0
+//@   ensures C14.model_plain_mode_reaches_store: plain && !m.failCreate ==> wrote
+
+//@ func (m *MockKeyValue) Update(key, value, rev, opts)
+//@   tags C14
+//@   ghost plain Bool = false
+//@   ghost hadKey Bool = false
+//@   ghost oldRev Int = 0
+//@   ghost oldCtr Int = 0
+//@   ghost postHas Bool = false
+//@   ghost postRev Int = 0
+//@   ghost postVal Int = 0
+//@   ghost postCtr Int = 0
+//@   ghost wrote Bool = false
+//@   on lock MockKeyValue.mu when held(m.mu) == 1 set plain = m.UpdateFunc == nil
+//@   on lock MockKeyValue.mu when held(m.mu) == 2 set hadKey = has(m.data, key)
+//@   on lock MockKeyValue.mu when held(m.mu) == 2 set oldRev = m.data[key].Rev
+//@   on lock MockKeyValue.mu when held(m.mu) == 2 set oldCtr = m.rev
+//@   on unlock MockKeyValue.mu when held(m.mu) == 2 set postHas = has(m.data, key)
+//@   on unlock MockKeyValue.mu when held(m.mu) == 2 set postRev = m.data[key].Rev
+//@   on unlock MockKeyValue.mu when held(m.mu) == 2 set postVal = m.data[key].Value
+//@   on unlock MockKeyValue.mu when held(m.mu) == 2 set postCtr = m.rev
+//@   on unlock MockKeyValue.mu when held(m.mu) == 2 set wrote = true
+//@   ensures C14.model_update_iff_latest: plain && wrote ==> ((result1 == nil) == (hadKey && oldRev == rev))
+//@   ensures C14.model_update_effect: plain && wrote && result1 == nil ==> postHas && postVal == value && postRev == result0 && result0 == oldCtr + 1 && postCtr == result0 && result0 > oldCtr
+//@   ensures C14.model_update_failure_no_effect: plain && wrote && result1 != nil ==> postCtr == oldCtr && result0 == 0 && (hadKey ==> postRev == oldRev)
+//@   ensures C14.model_plain_mode_reaches_store: plain && !m.failUpdate ==> wrote
+
+//@ func (m *MockKeyValue) Get(key)
+//@   tags C14
+//@   ghost plain Bool = false
+//@   ghost nlock Int = 0
+//@   ghost hadKey Bool = false
+//@   ghost curRev Int = 0
+//@   ghost curVal Int = 0
+//@   ghost read Bool = false
+//@   on lock MockKeyValue.mu when nlock == 0 set plain = m.GetFunc == nil
+//@   on lock MockKeyValue.mu when nlock == 1 set hadKey = has(m.data, key)
+//@   on lock MockKeyValue.mu when nlock == 1 set curRev = m.data[key].Rev
+//@   on lock MockKeyValue.mu when nlock == 1 set curVal = m.data[key].Value
+//@   on lock MockKeyValue.mu when nlock == 1 set read = true
+//@   on lock MockKeyValue.mu set nlock = nlock + 1
+//@   ensures C14.model_get_iff_live: plain && read ==> ((result1 == nil) == hadKey)
+//@   ensures C14.model_get_latest: plain && read && result1 == nil ==> result0 != nil && istype(result0, *natsmock.MockEntryImpl) && result0.(*natsmock.MockEntryImpl).ValueVal == curVal && result0.(*natsmock.MockEntryImpl).RevVal == curRev && result0.(*natsmock.MockEntryImpl).KeyVal == key
+//@   ensures C14.model_plain_mode_reaches_store: plain && !m.failGet ==> read
+
+//@ func (m *MockKeyValue) Delete(key)
+//@   tags C14
+//@   ghost plain Bool = false
+//@   ghost hadKey Bool = false
+//@   ghost postHas Bool = false
+//@   ghost wrote Bool = false
+//@   on lock MockKeyValue.mu when held(m.mu) == 1 set plain = m.DeleteFunc == nil
+//@   on lock MockKeyValue.mu when held(m.mu) == 2 set hadKey = has(m.data, key)
+//@   on unlock MockKeyValue.mu when held(m.mu) == 2 set postHas = has(m.data, key)
+//@   on unlock MockKeyValue.mu when held(m.mu) == 2 set wrote = true
+//@   ensures C14.model_delete_iff_live: plain && wrote ==> ((result == nil) == hadKey)
+//@   ensures C14.model_delete_effect: plain && wrote && result == nil ==> !postHas
+//@   ensures C14.model_plain_mode_reaches_store: plain && !m.failDelete ==> wrote
